@@ -346,6 +346,16 @@ fn run(a: &[&str]) -> String {
         "iand" => fi(&(&pi(a[1]) & &pi(a[2]))),
         "ior" => fi(&(&pi(a[1]) | &pi(a[2]))),
         "ixor" => fi(&(&pi(a[1]) ^ &pi(a[2]))),
+        "iand_assign" => { let mut x = pi(a[1]); x &= &pi(a[2]); fi(&x) }
+        "ior_assign" => { let mut x = pi(a[1]); x |= &pi(a[2]); fi(&x) }
+        "ixor_assign" => { let mut x = pi(a[1]); x ^= &pi(a[2]); fi(&x) }
+        "iand_vr" => fi(&(pi(a[1]) & &pi(a[2]))),
+        "ior_vr" => fi(&(pi(a[1]) | &pi(a[2]))),
+        "ixor_vr" => fi(&(pi(a[1]) ^ &pi(a[2]))),
+        "inot_ref" => fi(&(!&pi(a[1]))),
+        "uand_assign" => { let mut x = pu(a[1]); x &= &pu(a[2]); fu(&x) }
+        "uor_assign" => { let mut x = pu(a[1]); x |= &pu(a[2]); fu(&x) }
+        "uxor_assign" => { let mut x = pu(a[1]); x ^= &pu(a[2]); fu(&x) }
         "inot" => fi(&(!pi(a[1]))),
         "ishl" => fi(&(pi(a[1]) << (pu64(a[2]) as usize))),
         "ishr" => fi(&(pi(a[1]) >> (pu64(a[2]) as usize))),
